@@ -37,7 +37,10 @@ CFG_DIAMOND = {"values": (), "templates": ("total", "add", "mul2"), "leaves": [m
                          ("callfun", (mgr.P("n", "y"), mgr.P("a")), (2, 9)), ("callfun", (mgr.P("n", "x"), mgr.P("n", "y")), (4, 6))]}
 # special float values (zero, infinity) through products and sums: a definition holds for them as for any other value
 CFG_SPECIAL = {"values": (0.0, float("inf"), -2.5), "templates": ("mul", "add", "neg"), "leaves_n": 3}
-ALPHABETS = {"special": CFG_SPECIAL, "diamond": CFG_DIAMOND, "full": CFG_FULL, "mix": CFG_MIX, "reduced": CFG_REDUCED, "reduced_t": CFG_REDUCED_T, "iopref": CFG_IOPREF, "knobs": CFG_KNOBS}
+# the mixed world over a reduced alphabet (one template of each structural kind), one level deeper
+CFG_MIXR = {"values": (3,), "index_values": (1,), "templates": ("mul2", "total", "dyn", "pair1"), "unreg": True, "setc": True,
+            "funs": ("F1",), "knobs": ("K1",), "sources_n": 3}
+ALPHABETS = {"mixr": CFG_MIXR, "special": CFG_SPECIAL, "diamond": CFG_DIAMOND, "full": CFG_FULL, "mix": CFG_MIX, "reduced": CFG_REDUCED, "reduced_t": CFG_REDUCED_T, "iopref": CFG_IOPREF, "knobs": CFG_KNOBS}
 
 
 def alphabet_for(world, name):
@@ -46,6 +49,9 @@ def alphabet_for(world, name):
     if n:
         cfg["leaves"] = world["leaves"][:n]
         cfg["sources"] = world["leaves"][:n]
+    n = cfg.pop("sources_n", None)
+    if n:
+        cfg["sources"] = world["leaves"][::2][:n]
     return cfg
 
 
@@ -55,14 +61,15 @@ class System(ManagerSystem):
 
 
 def plan(tier, seed):
-    seeds = common.seeds_for(tier, seed)
+    seeds = common.seeds_for(tier, seed, thorough=(0, 1, 2, 3))
     jobs = []
     if tier == "quick":
         runs = [("W-nest", "full", 2), ("W-nest-4", "reduced", 4), ("W-mix", "mix", 2), ("W-flat", "iopref", 4), ("W-knobs", "knobs", 4), ("W-nest", "diamond", 4), ("W-flat", "special", 3)]
         fam_sizes, fam_big = (1, 10, 100, 900, 1100), (3000,)
     else:
-        runs = [("W-nest", "full", 3), ("W-nest-small", "reduced_t", 4), ("W-nest-small", "reduced", 5),
-                ("W-mix", "mix", 3), ("W-flat", "iopref", 5), ("W-nest-4", "iopref", 4), ("W-knobs", "knobs", 6), ("W-nest", "diamond", 6), ("W-flat", "special", 4)]
+        runs = [("W-nest", "full", 3), ("W-nest-small", "reduced_t", 3), ("W-nest-small", "reduced", 4),
+                ("W-mix", "mix", 2), ("W-mix", "mixr", 3), ("W-flat", "iopref", 5), ("W-nest-4", "iopref", 4), ("W-knobs", "knobs", 5),
+                ("W-nest", "diamond", 5), ("W-flat", "special", 4)]
         fam_sizes, fam_big = (1, 10, 100, 900, 1100, 3000), (20000,)
     for hs in seeds:
         for wname, alpha, depth in runs:
